@@ -20,7 +20,7 @@ const (
 	EncPtrRecvNonAddr    = "KF-ENC-pointer-receiver-on-unaddressable"
 	EncMapOrderEscaped   = "KF-ENC-map-order-by-escaped-key"
 	EncStringTagOnOthers = "FX-ENC-string-tag-on-unsupported-kind" // fixed: the selector can never be active again
-	EncOmitemptyArray0   = "FX-ENC-omitempty-zero-length-array" // fixed: the selector can never be active again
+	EncOmitemptyArray0   = "FX-ENC-omitempty-zero-length-array"    // fixed: the selector can never be active again
 	EncOmitemptyPtrPtr   = "KF-ENC-omitempty-pointer-to-nil-pointer"
 	EncEmbeddedConflict  = "KF-ENC-embedded-name-conflict"
 	EncNilPtrFirstMarsh  = "FX-ENC-nil-pointer-to-struct-starting-with-pointer-receiver-marshaler"
@@ -193,41 +193,6 @@ func dedupEmbedded(s *gen.TypeSpec, seen map[string]bool, counter *int) {
 	}
 }
 
-// tameEmbedded: inside embedded structs, omitempty options and pointer-to-pointer fields are removed.
-func tameEmbedded(n *gen.TypeSpec) {
-	for i := range n.Fields {
-		f := &n.Fields[i]
-		if !f.Embedded {
-			continue
-		}
-		u := underPtr(f.T)
-		if u.K != "struct" {
-			continue
-		}
-		if f.T.K == "ptr" && hasEmbedded(u) { // nil embedded pointer whose struct embeds further structs
-			f.T = u
-			rt.Excluded(EncEmbeddedConflict)
-		}
-		for j := range u.Fields {
-			g := &u.Fields[j]
-			if g.Embedded { // no embedding inside embedded structs
-				g.Embedded = false
-				g.Name = "N" + g.Name
-				rt.Excluded(EncEmbeddedConflict)
-			}
-			if g.HasTag && strings.Contains(g.Tag, ",omitempty") {
-				g.Tag = strings.Replace(g.Tag, ",omitempty", "", 1)
-				rt.Excluded(EncEmbeddedConflict)
-			}
-			for g.T.K == "ptr" && g.T.Elem.K == "ptr" {
-				g.T = g.T.Elem
-				rt.Excluded(EncEmbeddedConflict)
-			}
-		}
-		tameEmbedded(u)
-	}
-}
-
 func hasEmbedded(s *gen.TypeSpec) bool {
 	for _, f := range s.Fields {
 		if f.Embedded {
@@ -245,7 +210,6 @@ func RepairEncSpec(s *gen.TypeSpec) {
 		s.Walk(func(n *gen.TypeSpec) {
 			if n.K == "struct" && hasEmbedded(n) {
 				c := 0
-				tameEmbedded(n)
 				dedupEmbedded(n, map[string]bool{}, &c)
 			}
 		})
